@@ -431,6 +431,14 @@ func (a *Actor) ResponseSlow(id string, head, tail []byte, pause time.Duration) 
 	return c
 }
 
+// ErrorSlow posts an invocation error whose body arrives in two parts with a pause of virtual time between them.
+func (a *Actor) ErrorSlow(id, errType string, head, tail []byte, pause time.Duration) *Call {
+	rd := &slowBody{parts: [][]byte{head, tail}, pause: pause}
+	c := a.doR("error", "POST", rtBase+"/invocation/"+id+"/error", map[string]string{"Content-Type": "application/json", "Lambda-Runtime-Function-Error-Type": errType}, append(append([]byte{}, head...), tail...), rd)
+	c.ReqID = id
+	return c
+}
+
 // pieceReader hands out data in pieces of at most piece bytes.
 type pieceReader struct {
 	data  []byte
